@@ -235,4 +235,81 @@ theorem c12_tree_binding_any_seen
     t = t' :=
   tree_binding hinj img img' lay lay' kw vw fuel fuel' pn ck seen seen' t t' pages pages' h h'
 
+/-! ## 7. non-vacuity -/
+namespace Example
+
+/-- a leaf page with two pairs of `u8` keys / `u8` values: 5 ↦ 50, 9 ↦ 90 -/
+def leafBytes : Bytes := [1, 0, 2, 0, 5, 9, 50, 90]
+/-- an 8-byte super-header page followed by one region with this page as its only data page -/
+def img : ByteArray := ⟨#[0, 0, 0, 0, 0, 0, 0, 0, 1, 0, 2, 0, 5, 9, 50, 90]⟩
+def lay : Layout :=
+  { pageSize := 8, regionHeaderPages := 0, regionMaxDataPages := 1, numFullRegions := 1, trailingPages := 0 }
+def pn : PageNumber := ⟨0, 0, 0⟩
+def entries : List Entry := [([5], [50]), ([9], [90])]
+/-- XXH3-128 of the eight bytes of the page (computed by the model, checked by the kernel below) -/
+def ck : Bytes := [65, 214, 192, 58, 177, 145, 163, 239, 184, 206, 228, 26, 176, 145, 39, 29]
+
+theorem getPage_eq : getPage img lay pn = some leafBytes := by
+  have h1 : img.extract 8 16 = ⟨#[1, 0, 2, 0, 5, 9, 50, 90]⟩ := by decide
+  have h2 : (ByteArray.mk #[1, 0, 2, 0, 5, 9, 50, 90]).toList = leafBytes := by
+    simp [ByteArray.toList, ByteArray.toList.loop, ByteArray.size, ByteArray.get!, leafBytes]
+  have : (img.extract 8 16).toList = leafBytes := by rw [h1, h2]
+  simpa [getPage, lay, pn, Layout.inRange, Layout.pageAddr, Layout.numRegions, Layout.regionPages,
+    ByteArray.size, img] using this
+
+theorem decodeLeaf_eq' : decodeLeaf (some 1) (some 1) leafBytes = some { entries := entries, used := 8 } := by
+  rfl
+
+set_option maxRecDepth 4000 in
+theorem checksum_eq : pageChecksum leafBytes 8 = ck := by
+  have h : (leafBytes.take 8).toByteArray = ⟨#[1, 0, 2, 0, 5, 9, 50, 90]⟩ := by decide
+  have h2 : Redb.Xxh3.checksum ⟨#[1, 0, 2, 0, 5, 9, 50, 90]⟩ = ck := by decide
+  rw [pageChecksum, h, h2]
+
+/-- the page decodes, under its true checksum, to the expected one-leaf tree -/
+theorem decodeTree_eq :
+    decodeTree img lay (some 1) (some 1) 1 pn ck [] = .ok (.leaf pn entries, [pn]) := by
+  have hb : byteAt leafBytes 0 = 1 := by decide
+  simp [decodeTree, getPage_eq, hb, decodeLeaf_eq', checksum_eq]
+
+theorem wf_eq : wf (.uint 1) none none 0 (Tree.leaf entries) = true := by
+  simp [wf, keysOk, aboveLo, belowHi, valid, cmp, leNat, entries]
+  decide
+
+theorem checkTree_eq : checkTree (.uint 1) "example" (.leaf pn entries) = .ok () := by
+  have : depthLeft 129 (Tree.leaf entries) = 0 := rfl
+  simp [checkTree, this, PTree.erase, wf_eq]
+
+/-- the hypotheses of the C10 theorems are satisfiable, and their conclusions hold here -/
+example : ChecksumsMatch img lay (some 1) (some 1) pn ck (.leaf pn entries) :=
+  c10_tree_checksums _ _ _ _ _ _ _ _ _ _ decodeTree_eq
+
+example : Sorted (.uint 1) entries ∧ ∀ e, e ∈ entries → valid (.uint 1) e.1 = true :=
+  c10_tree_sorted (.uint 1) "example" (.leaf pn entries) checkTree_eq
+
+example : lookup (.uint 1) (Tree.leaf entries) [9] = some [90] := by
+  rw [show Tree.leaf entries = (PTree.leaf pn entries).erase from rfl,
+    c10_tree_lookup (.uint 1) "example" (.leaf pn entries) checkTree_eq [9] (by simp [valid])]
+  simp [PTree.erase, flatten, entries, Spec.get, cmp, leNat]
+  decide
+
+/-- a two-level tree with a shortened separator (10 is not a key) is well-formed -/
+example : wf (.uint 1) none none 1
+    (.branch [.leaf [([5], [50]), ([9], [90])], .leaf [([12], [1])]] [[10]]) = true := by
+  simp [wf, wfChildren, keysOk, aboveLo, belowHi, valid, cmp, leNat]
+  decide
+
+/-- … and a tree whose separator does not bound its left subtree is rejected -/
+example : wf (.uint 1) none none 1
+    (.branch [.leaf [([5], [50]), ([11], [90])], .leaf [([12], [1])]] [[10]]) = false := by
+  simp [wf, wfChildren, keysOk, aboveLo, belowHi, valid, cmp, leNat]
+  decide
+
+/-- a wrong stored checksum is rejected -/
+example : ∃ e, decodeTree img lay (some 1) (some 1) 1 pn (0 :: ck.tail) [] = .error e := by
+  have hb : byteAt leafBytes 0 = 1 := by decide
+  have hne : (ck != 0 :: ck.tail) = true := by decide
+  simp [decodeTree, getPage_eq, hb, decodeLeaf_eq', checksum_eq, hne, fail]
+
+end Example
 end Redb.Format
